@@ -214,6 +214,26 @@ def c19():
             run_case("apply(v,d,bad-serializer)", dict(f="apply", rule=desc_r, serializer="returns " + bad), lambda: jsonlogic_rs.apply(r, 1, lambda o: bad), bad, bad)
 
 
+def c19_long_errors():
+    """library errors that quote long non-ASCII content must still be ValueError"""
+    units = ["é", "€", "水", "😀", "z"]
+    i = 0
+    for u in units:
+        for n in (40, 200, 343, 600, 3000):
+            for shift in range(4):
+                i += 1
+                if i % nshards != shard:
+                    continue
+                s_ = "a" * shift + u * n
+                for rule, data in (({"+": [s_]}, None), ({"+": [{"var": "s"}]}, {"s": s_}), ({"substr": [1, s_]}, None), ({"in": [1, s_]}, None),
+                                   ({"map": [s_, 1]}, None), ({"max": [{"var": ""}, 1]}, s_), ({"missing_some": [s_, []]}, None), ({s_: 1, "+": 2}, None)):
+                    rt, dt = dumps(rule), dumps(data)
+                    run_case("apply:long-error", {"f": "apply", "rule_kind": list(rule.keys())[0] if isinstance(rule, dict) else "lit", "unit": u, "n": n, "shift": shift},
+                             lambda: jsonlogic_rs.apply(rule, data), rt, dt)
+                    run_case("apply_serialized:long-error", {"f": "apply_serialized", "rule_kind": list(rule.keys())[0] if isinstance(rule, dict) else "lit", "unit": u, "n": n, "shift": shift},
+                             lambda: jsonlogic_rs.apply_serialized(rt, dt), rt, dt)
+
+
 def c01():
     big = [None, True, 0, -0.0, 1.5, -2 ** 63, 2 ** 63 - 1, 2 ** 63, 2 ** 64 - 1, 2 ** 64, -2 ** 64, 10 ** 400, 1.7976931348623157e308, 5e-324,
            "", "a", "\x00", "héllo水😀", "-9223372036854775808", "1e1000", "a.b..c\\", "\\", [], [None], [1, [2]], [-2 ** 63], {}, {"a": {"b": [1, 2, {"c": "d"}]}},
@@ -259,6 +279,14 @@ def c19_history():
     for d in scalars[:7]:
         calls.append(("apply(%r)" % (d,), (lambda d=d: jsonlogic_rs.apply(d))))
         calls.append(("apply_serialized(%r)" % (json.dumps(d),), (lambda d=d: jsonlogic_rs.apply_serialized(json.dumps(d)))))
+    # rules (and data) that are equal under Python's == but are different JSON (True == 1 == 1.0, False == 0 == -0.0)
+    twin_rules = [
+        {"===": [{"var": ""}, True]}, {"===": [{"var": ""}, 1.0]}, {"cat": ["v=", 1]}, {"cat": ["v=", True]}, {"cat": ["v=", 1.0]},
+        [0, "a"], [False, "a"], [0.0, "a"], {"in": [{"var": ""}, [False, 2]]}, {"in": [{"var": ""}, [0, 2]]}, {"var": ["zz", 1]}, {"var": ["zz", True]},
+    ]
+    for r in twin_rules:
+        for d in (1, True, False, 0):
+            calls.append(("apply(%r,%r)" % (r, d), (lambda r=r, d=d: jsonlogic_rs.apply(r, d))))
     calls.append(("apply({'var':''},1,compact)", lambda: jsonlogic_rs.apply({"var": ""}, 1, compact)))
     calls.append(("apply({'var':''},1.0,None,tagged)", lambda: jsonlogic_rs.apply({"var": ""}, 1.0, None, tagged)))
     calls.append(("apply_serialized('{\"var\":\"\"}','true',tagged)", lambda: jsonlogic_rs.apply_serialized('{"var":""}', "true", tagged)))
@@ -350,6 +378,7 @@ try:
         # the history exploration starts from the pristine interpreter: it must run first
         c19_history()
         c19()
+        c19_long_errors()
     else:
         c01()
 finally:
